@@ -25,7 +25,9 @@ func c08RandomSpec(c *core.Ctx, pattern string, dns bool) *gen.Spec {
 	}
 	gen.AddRandomMods(c.Rng, s, k, 0.22)
 	if dns && c.Rng.Intn(4) == 0 {
-		v := []string{"1.2.3.4", "REFUSED", "NOERROR;MX;10 mail.example.net", "new.example.net", "::1"}[c.Rng.Intn(5)]
+		// (an escaped comma inside a value is part of the value wherever the
+		// modifier stands in the list)
+		v := []string{"1.2.3.4", "REFUSED", "NOERROR;MX;10 mail.example.net", "new.example.net", "::1", "NOERROR;TXT;a\\,b", "NOERROR;TXT;x\\,y\\,z"}[c.Rng.Intn(7)]
 		s.DNSRewrite = &v
 	}
 	if !dns && s.Exception && c.Rng.Intn(10) == 0 {
